@@ -326,6 +326,17 @@ class Shard(ShardCMC):
                 hdr_buf = self.shard_spec.index_encoder(hdr_buf)
                 fp.write(hdr_buf)
 
+                # The index entry of a minishard must be located at the slot
+                # of its minishard number: leave empty entries for the unused
+                # minishards that precede it.
+                slot = int(minishard.get_minishard_key(minishard.header[0]))
+                while len(sh_idx_buf) < 16 * slot:
+                    sh_idx_buf += struct.pack("<Q", data_size + sh_size)
+                    sh_idx_buf += struct.pack("<Q", data_size + sh_size)
+                if len(sh_idx_buf) > 16 * slot:
+                    raise ShardedIOError(
+                        f"more than one minishard for minishard number {slot}")
+
                 sh_idx_buf += struct.pack("<Q", data_size + sh_size)
 
                 sh_size += len(hdr_buf)
